@@ -1,2 +1,172 @@
-Require Import V.Base.MachineInt V.Model.LogBase V.Model.Publication V.Oracle.C04Oracle.
-Theorem C04_placeholder : True. Proof. exact I. Qed.
+(* Property C04 - flow control and limits: nothing is appended at or beyond the publication limit.
+   Statements only; proofs are in Proofs/C04Statements.v (and the files it rests on).
+
+   `reachable m rv s`  : s is the state of a shared Publication after some history of offers, claims (+ commit / abort),
+                         bulk offers, limit / connection-flag updates, closes and partition cleanings, started on a log
+                         a driver handed over (any legal geometry, any initial term id, any term count below 2^31, any tail
+                         offset in the term); lengths fit an i32, the limit stays within half a term of the end of the
+                         position space (`limit_ok`).
+   `xreachable m rv x` : the same for an ExclusivePublication constructed (as repaired) on such a log.
+   m : Debug / Release arithmetic, rv : any reserved-value supplier. *)
+Require Import V.Base.MachineInt V.Generated.GenConsts V.Model.Descriptor V.Model.LogBase V.Model.Appender
+               V.Model.ExclAppender V.Model.Publication V.Model.ExclPublication
+               V.Proofs.AppenderProofs V.Proofs.PublicationProofs V.Proofs.BulkProofs V.Proofs.C04Proofs
+               V.Proofs.ExclPublicationProofs V.Proofs.C04Statements.
+Open Scope Z_scope.
+
+(* every reachable state satisfies the invariant the other statements are proved from *)
+Theorem C04_invariant : forall m rv s, reachable m rv s -> exists n off, pub_inv n off s.
+Proof. exact reachable_inv. Qed.
+Print Assumptions C04_invariant.
+
+Theorem C04_invariant_exclusive : forall m rv x, xreachable m rv x -> exists n, xpub_inv n x.
+Proof. exact xreachable_inv. Qed.
+Print Assumptions C04_invariant_exclusive.
+
+(* accepted only if the position before is strictly below the limit (and the publication open, the length legal);
+   the returned value is position-before + bytes needed, it is what position() reports afterwards, and it never
+   exceeds term_length * 2^31 *)
+Theorem C04_accept : forall m rv s, reachable m rv s -> forall o s' p,
+  op_ok (ps_log s) o -> is_append o = true -> pub_step m rv s o = (s', Ok p) ->
+  exists b, pub_position m s = Ok b /\ b < l_limit (ps_log s) /\ ps_closed s = false /\ op_too_long (ps_log s) o = false /\
+            p = b + op_required (ps_log s) o /\ pub_position m s' = Ok p /\ 0 <= p <= l_tlen (ps_log s) * two31.
+Proof. exact c04_accept. Qed.
+Print Assumptions C04_accept.
+
+Theorem C04_accept_exclusive : forall m rv x, xreachable m rv x -> forall o x' p,
+  op_ok (xlog x) o -> is_xappend o = true -> xpub_step m rv x o = (x', Ok p) ->
+  exists b, xpub_position m x = Ok b /\ b < l_limit (xlog x) /\ ps_closed (x_pub x) = false /\ op_too_long (xlog x) o = false /\
+            p = b + op_required (xlog x) o /\ xpub_position m x' = Ok p /\ 0 <= p <= l_tlen (xlog x) * two31.
+Proof. exact c04x_accept. Qed.
+Print Assumptions C04_accept_exclusive.
+
+(* a refusal - back-pressured, not connected, closed, too long - leaves the whole state (log bytes, tails, term count,
+   claim, position) exactly as it was *)
+Theorem C04_refuse_pure : forall m rv s, reachable m rv s -> forall o s' e,
+  op_ok (ps_log s) o -> is_append o = true -> pub_step m rv s o = (s', Err e) ->
+  (e = BackPressured \/ e = NotConnected \/ e = Closed \/ e = TooLong) -> s' = s.
+Proof. exact c04_refuse_pure. Qed.
+Print Assumptions C04_refuse_pure.
+
+Theorem C04_refuse_pure_exclusive : forall m rv x, xreachable m rv x -> forall o x' e,
+  op_ok (xlog x) o -> is_xappend o = true -> xpub_step m rv x o = (x', Err e) ->
+  (e = BackPressured \/ e = NotConnected \/ e = Closed \/ e = TooLong) -> x' = x.
+Proof. exact c04x_refuse_pure. Qed.
+Print Assumptions C04_refuse_pure_exclusive.
+
+(* at or beyond the limit every offer / claim is refused with the prescribed status - max-position-exceeded iff
+   position + length reaches the end of the position space, else back-pressured iff connected, else not-connected
+   (an over-long claim: too-long) - and the state does not change *)
+Theorem C04_refuse_at_limit : forall m rv s, reachable m rv s -> forall o b,
+  op_ok (ps_log s) o -> is_append o = true -> ps_closed s = false ->
+  pub_position m s = Ok b -> l_limit (ps_log s) <= b ->
+  pub_step m rv s o =
+    (s, Err (match o with
+             | Claim len => if max_payload_length (ps_log s) <? len then TooLong else status_of (ps_log s) b len
+             | _ => status_of (ps_log s) b (op_len o) end)).
+Proof. exact c04_refuse_at_limit. Qed.
+Print Assumptions C04_refuse_at_limit.
+
+Theorem C04_refuse_at_limit_exclusive : forall m rv x, xreachable m rv x -> forall o b,
+  op_ok (xlog x) o -> is_xappend o = true -> ps_closed (x_pub x) = false ->
+  xpub_position m x = Ok b -> l_limit (xlog x) <= b ->
+  xpub_step m rv x o =
+    (x, Err (match o with
+             | Claim len => if max_payload_length (xlog x) <? len then TooLong else status_of (xlog x) b len
+             | _ => status_of (xlog x) b (op_len o) end)).
+Proof. exact c04x_refuse_at_limit. Qed.
+Print Assumptions C04_refuse_at_limit_exclusive.
+
+(* a closed publication rejects every offer and claim, state unchanged *)
+Theorem C04_closed : forall m rv s, reachable m rv s -> forall o,
+  op_ok (ps_log s) o -> is_append o = true -> ps_closed s = true ->
+  pub_step m rv s o = (s, Err Closed) \/
+  (exists len, o = Claim len /\ max_payload_length (ps_log s) < len /\ pub_step m rv s o = (s, Err TooLong)).
+Proof. exact c04_closed. Qed.
+Print Assumptions C04_closed.
+
+Theorem C04_closed_exclusive : forall m rv x, xreachable m rv x -> forall o,
+  op_ok (xlog x) o -> is_xappend o = true -> ps_closed (x_pub x) = true ->
+  xpub_step m rv x o = (x, Err Closed) \/
+  (exists len, o = Claim len /\ max_payload_length (xlog x) < len /\ xpub_step m rv x o = (x, Err TooLong)).
+Proof. exact c04x_closed. Qed.
+Print Assumptions C04_closed_exclusive.
+
+(* a message longer than the maximum message length (a claim longer than the MTU payload) is rejected, state unchanged *)
+Theorem C04_too_long : forall m rv s, reachable m rv s -> forall o,
+  op_ok (ps_log s) o -> is_append o = true -> op_too_long (ps_log s) o = true -> exists e, pub_step m rv s o = (s, Err e).
+Proof. exact c04_too_long. Qed.
+Print Assumptions C04_too_long.
+
+Theorem C04_too_long_exclusive : forall m rv x, xreachable m rv x -> forall o,
+  op_ok (xlog x) o -> is_xappend o = true -> op_too_long (xlog x) o = true -> exists e, xpub_step m rv x o = (x, Err e).
+Proof. exact c04x_too_long. Qed.
+Print Assumptions C04_too_long_exclusive.
+
+(* the stream never advances past term_length * 2^31 *)
+Theorem C04_max : forall m rv s, reachable m rv s -> ps_closed s = false ->
+  exists p, pub_position m s = Ok p /\ 0 <= p <= l_tlen (ps_log s) * two31.
+Proof. exact c04_max. Qed.
+Print Assumptions C04_max.
+
+Theorem C04_max_exclusive : forall m rv x, xreachable m rv x -> ps_closed (x_pub x) = false ->
+  exists p, xpub_position m x = Ok p /\ 0 <= p <= l_tlen (xlog x) * two31.
+Proof. exact c04x_max. Qed.
+Print Assumptions C04_max_exclusive.
+
+(* the only non-Ok results that change anything are the end-of-term trips: the position was below the limit, the message did
+   not fit into the rest of the term; the log gets the bumped tail and one padding frame (`bumped`, described by
+   `C04_trip_effect`), and - unless it is the very last term, where the answer is MaxPositionExceeded - one rotation *)
+Theorem C04_trip : forall m rv s, reachable m rv s -> forall o s' e,
+  op_ok (ps_log s) o -> is_append o = true -> pub_step m rv s o = (s', Err e) -> s' <> s ->
+  exists n off, pub_inv n off s /\ ps_closed s = false /\ ps_closed s' = false /\ ps_claim s' = ps_claim s /\
+    n * l_tlen (ps_log s) + off < l_limit (ps_log s) /\ l_tlen (ps_log s) < off + op_required (ps_log s) o /\
+    ((e = AdminAction /\ n < two31 - 1 /\ ps_log s' = rotated (bumped (ps_log s) n off (op_required (ps_log s) o)) n) \/
+     (e = MaxPositionExceeded /\ n = two31 - 1 /\ ps_log s' = bumped (ps_log s) n off (op_required (ps_log s) o))).
+Proof. exact c04_trip. Qed.
+Print Assumptions C04_trip.
+
+Theorem C04_trip_effect : forall l n off req, 0 <= n ->
+  tail (bumped l n off req) (n mod 3) = wrap32 (l_init l + n) * two32 + (off + req) /\
+  tail (bumped l n off req) ((n + 1) mod 3) = tail l ((n + 1) mod 3) /\
+  tail (bumped l n off req) ((n + 2) mod 3) = tail l ((n + 2) mod 3) /\
+  l_count (bumped l n off req) = l_count l /\
+  part (bumped l n off req) ((n + 1) mod 3) = part l ((n + 1) mod 3) /\
+  part (bumped l n off req) ((n + 2) mod 3) = part l ((n + 2) mod 3) /\
+  part (bumped l n off req) (n mod 3) =
+    (if off <? l_tlen l
+     then term_put (part l (n mod 3)) off
+            [Committed (data_frame l off (l_tlen l - off) (wrap32 (l_init l + n)) F_UNFRAG T_PAD 0 [])]
+     else part l (n mod 3)).
+Proof. exact bumped_spec. Qed.
+Print Assumptions C04_trip_effect.
+
+Theorem C04_trip_exclusive : forall m rv x, xreachable m rv x -> forall o x' e,
+  op_ok (xlog x) o -> is_xappend o = true -> xpub_step m rv x o = (x', Err e) -> x' <> x ->
+  exists n, xpub_inv n x /\ ps_closed (x_pub x) = false /\ xspec_pos x < l_limit (xlog x) /\
+    l_tlen (xlog x) < x_off x + op_required (xlog x) o /\
+    ((e = AdminAction /\ n < two31 - 1 /\
+      xlog x' = rotated (xbumped (xlog x) (x_idx x) (x_tid x) (x_off x) (op_required (xlog x) o)) n /\
+      xspec_pos x' = (n + 1) * l_tlen (xlog x)) \/
+     (e = MaxPositionExceeded /\ n = two31 - 1 /\
+      xlog x' = xbumped (xlog x) (x_idx x) (x_tid x) (x_off x) (op_required (xlog x) o) /\ xspec_pos x' = xspec_pos x)).
+Proof. exact c04x_trip. Qed.
+Print Assumptions C04_trip_exclusive.
+
+(* on the whole domain every offer / claim / bulk offer answers with a position or one of the six documented errors:
+   no panic (in particular no arithmetic overflow in the debug build), no other error *)
+Theorem C04_total : forall m rv s, reachable m rv s -> forall o, op_ok (ps_log s) o -> is_append o = true ->
+  match snd (pub_step m rv s o) with
+  | Ok _ | Err BackPressured | Err NotConnected | Err AdminAction | Err MaxPositionExceeded | Err Closed | Err TooLong => True
+  | _ => False
+  end.
+Proof. exact c04_total. Qed.
+Print Assumptions C04_total.
+
+Theorem C04_total_exclusive : forall m rv x, xreachable m rv x -> forall o, op_ok (xlog x) o -> is_xappend o = true ->
+  match snd (xpub_step m rv x o) with
+  | Ok _ | Err BackPressured | Err NotConnected | Err AdminAction | Err MaxPositionExceeded | Err Closed | Err TooLong => True
+  | _ => False
+  end.
+Proof. exact c04x_total. Qed.
+Print Assumptions C04_total_exclusive.
